@@ -80,7 +80,7 @@ impl BitVec
                 bigint.get_bit(size - 1 - i));
         }
 
-        if index + size > self.len
+        if size > 0 && index + size > self.len
         {
             self.len = index + size;
         }
